@@ -248,6 +248,17 @@ type ReplayFile struct {
 	Case     json.RawMessage `json:"case"`
 }
 
+// WriteCrash records a panic of the code under test that no check-level guard caught.
+func WriteCrash(id, tier, sig, text string) string {
+	rf := ReplayFile{Property: id, Tier: tier, Sig: sig, Witness: "(see detail)", Detail: text, Case: json.RawMessage("null")}
+	b, _ := json.MarshalIndent(rf, "", " ")
+	dir := filepath.Join(Root, "replays", id)
+	os.MkdirAll(dir, 0o755)
+	path := filepath.Join(dir, "crash.json")
+	os.WriteFile(path, b, 0o644)
+	return path
+}
+
 func (r *Run) writeReplay(f Finding) (string, error) {
 	raw, err := json.Marshal(f.Case)
 	if err != nil {
